@@ -136,7 +136,8 @@ def wellFormed (buf : Bytes) : Bool :=
     | some e => e == buf.length
     | none => false
 
-def wfName (n : Name) : Bool := n.length ≤ 127 && n.all fun l => 1 ≤ l.length && l.length ≤ 63 && l.all (· < 256)
+/-- a name the decoder can produce: labels of 1..63 octets, at most 255 octets on the wire (RFC 1035 2.3.4) -/
+def wfName (n : Name) : Bool := wireLen n ≤ 255 && n.all fun l => 1 ≤ l.length && l.length ≤ 63 && l.all (· < 256)
 
 def rdataNames : RData → List Name
   | .cname d | .ns d | .ptr d | .mx _ d | .rt _ d | .afsdb _ d | .naptr _ _ _ _ _ d => [d]
@@ -215,5 +216,38 @@ def judgeEnc (inp obs : List String) : Verdict :=
     | some _, none => { corr := "differ:model-panics", spec := "na" }
     | none, _ => badInput "wirehex"
   | _, _, _ => badInput "dnsenc"
+
+/-- `dnsrt <hex> => ok <wirehex of the re-encoding> | err | panic:…` — the first quantifier of C14: whatever byte
+    string the decoder accepts is written again (limit 65535) into octets that decode to the identical message -/
+def judgeRt (inp obs : List String) : Verdict :=
+  match inp with
+  | [h] =>
+    match fromHex h with
+    | some bytes =>
+      let o := " ".intercalate obs
+      match parse bytes with
+      | .error _ =>
+        { corr := agreeIf (o == "err") "model=err",
+          spec := if o.startsWith "panic" then "unsat:C05.no_panic:dns-parse" else "sat" }
+      | .ok m =>
+        let mw := serialiseWithSize m 65535
+        let corr := match mw with
+          | some w => agreeIf (o == "ok " ++ toHex w) s!"model=ok {toHex w}"
+          | none => agreeIf (o.startsWith "panic") "model-panics"
+        let spec :=
+          if o.startsWith "panic" then "unsat:C14.encode_total:decoded-message" else
+          match obs with
+          | ["ok", wh] =>
+            match fromHex wh with
+            | some w2 =>
+              if w2.getD 2 0 / 2 % 2 == 1 && !m.tc then "na"          -- did not fit into 65535 octets
+              else match parse w2 with
+                | .ok m2 => if dump m2 == dump m then "sat" else "unsat:C14.decoded_roundtrip:decodes-to-a-different-message"
+                | .error _ => "unsat:C14.decoded_roundtrip:own-decoder-rejects"
+            | none => "na"
+          | _ => "na"
+        { corr, spec }
+    | none => badInput "hex"
+  | _ => badInput "dnsrt"
 
 end Erbium.Judge.DnsWire
